@@ -102,6 +102,25 @@ def run_tlc(module, cfg, workdir, env=None, workers=None, simulate=None, depth=N
     return TlcResult(out, rc, time.time() - t0)
 
 
+def run_tlapm(module, workdir, timeout=900):
+    """check the proofs of SPEC/<module>.tla with the TLA+ proof system (tlapm); returns (obligations proved, all proved, output)"""
+    d = os.path.join(workdir, "tlapm-%s-%d" % (module, os.getpid()))
+    os.makedirs(d, exist_ok=True)
+    shutil.copy(os.path.join(SPEC, module + ".tla"), d)
+    try:
+        p = subprocess.run(["tlapm", "--cleanfp", module + ".tla"], cwd=d, stdout=subprocess.PIPE, stderr=subprocess.STDOUT, timeout=timeout,
+                           text=True, errors="replace")
+        out = p.stdout
+    except subprocess.TimeoutExpired as ex:
+        out = (ex.stdout.decode(errors="replace") if isinstance(ex.stdout, bytes) else (ex.stdout or "")) + "\nTLAPM-TIMEOUT\n"
+    except FileNotFoundError:
+        out = "TLAPM-NOT-INSTALLED"
+    finally:
+        shutil.rmtree(d, ignore_errors=True)
+    m = re.search(r"All (\d+) obligations? proved", out)
+    return (int(m.group(1)) if m else 0), bool(m), out
+
+
 class Ctx:
     def __init__(self, pid, tier, seed, level):
         self.pid = pid
